@@ -12,6 +12,7 @@ def to(limit): return dict(k="to", limit=limit)
 def hg(maxh=1, delay=2, c=(), delays=()): return dict(k="hg", maxh=maxh, delay=delay, c=list(c), delays=list(delays))
 def fb(fr="RF", fe=None, h=()): return dict(k="fb", fr=fr, fe=leaf(fe) if fe else NIL, h=list(h))
 def bh(id, max=1, wait=0): return dict(k="bh", id=id, max=max, wait=wait)
+def rl(id, ival=3, wait=0): return dict(k="rl", id=id, ival=ival, wait=wait)
 BR1 = dict(fthr=1, fcap=1, frate=0, fexec=0, period=0, sthr=0, scap=0, delay=1000)
 def cb(id, cfg=BR1, h=()): return dict(k="cb", id=id, cfg=cfg, h=list(h))
 
